@@ -1217,7 +1217,7 @@ func TestCheck(t *testing.T) {
 	rep.Info["model_validation_depth"] = tc.valDepth
 	rep.Assume(
 		"interleavings are controlled at the gates (Watcher.Add, handleEvent entry, between the certificate read and the key read of tls.LoadX509KeyPair, before the swap); code between two gates runs atomically with respect to updater steps; an updater step (one open+truncate+write, one rename, one directory swap) is atomic",
-		"inotify/fsnotify are represented by verif/ref/certenv, validated operation-by-operation against the real kernel and the real fsnotify v1.7.0 for every operation history up to the stated depth (on tmpfs and on the temp dir's file system), not beyond; queue overflow (IN_Q_OVERFLOW) is not modelled",
+		"inotify/fsnotify are represented by verif/ref/certenv, validated operation-by-operation against the real kernel and the real fsnotify v1.7.0 for every operation history up to the stated depth (on tmpfs and on the temp dir's file system), not beyond; queue overflow (IN_Q_OVERFLOW) is modelled only as an error report on Errors (part C), not as lost events",
 		"inotify merging of identical adjacent unread events is explored as a per-execution policy (never / always), not per event",
 		"tls.LoadX509KeyPair is replaced by its own std-lib body plus one scheduling point; sync.RWMutex by an exclusive channel lock",
 		"the leaf a TLS client sees is computed by an emulation of crypto/tls certificate selection on the tls.Config built by the binary's defaultTLSConfig; it is cross-checked by real TLS handshakes at every quiescent point of the undisturbed schedules",
@@ -1238,6 +1238,9 @@ func TestCheck(t *testing.T) {
 		}()
 		validateModel(rep, mat, tmp, tc.valDepth, shard, of, start.Add(tc.budget/3))
 	}()
+
+	// Part C: error reports from fsnotify between updates
+	errorReports(t, rep, mat, tmp, shard, of)
 
 	// Part B: exploration
 	st := &stats{feat: map[string]struct{}{}}
